@@ -125,6 +125,20 @@ TARGETS = [
                          "self.0.sorted_indirect.is_empty()": "decide (values = [])", "self.0.data[*idx].0": "idx",
                          "data.len()": "data.length", "Ok(())": "out"},
                   iters={"&self.0.sorted_indirect[..(self.0.sorted_indirect.len() - 1)]": "values.dropLast"})),
+    # ---- index tail (writer mode; field widths from the struct definition and the type table)
+    dict(name="indexTailWrites", group="Dir", file="src/creator/directory_pack/mod.rs", fn="serialize_tail", after=r"impl super::private::WritableTell for Index",
+         struct="Index",
+         cfg=dict(params=[("storeId", N), ("count", N), ("offset", N), ("freeData", "List UInt8"), ("key", N), ("name", "List UInt8")],
+                  ret="List (Nat × Nat)", writes=True, no_loops=True,
+                  prelude="let out : List (Nat × Nat) := []", prelude_scope=["out"],
+                  self_fields={"store_id": "storeId", "count": "count", "offset": "offset", "free_data": "(leNat freeData)", "index_key": "key", "name": "name"},
+                  exprs={"Ok(())": "out"})),
+    # ---- the creator's order on array values (inline prefix bytes, value id, length)
+    dict(name="writerArrayCmp", group="Dir", file="src/creator/directory_pack/value.rs", fn="cmp", after=r"impl Array \{",
+         cfg=dict(params=[("dataCmp", "Ordering"), ("id1", N), ("id2", N), ("s1", N), ("s2", N)], ret="Ordering",
+                  exprs={"self.data.cmp(&other.data)": "dataCmp",
+                         "self.value_id.get().cmp(&other.value_id.get())": "(compare id1 id2)",
+                         "self.size.cmp(&other.size)": "(compare s1 s2)"})),
 ]
 
 
@@ -133,7 +147,7 @@ def read(path):
         return f.read()
 
 
-GROUP_IMPORTS = {"Content": ["JubakoModel.Generated.FuncsBytes"], "Dir": ["JubakoModel.Generated.FuncsBytes"]}
+GROUP_IMPORTS = {"Content": ["JubakoModel.Generated.FuncsBytes"], "Dir": ["JubakoModel.Generated.FuncsBytes", "JubakoModel.Model.Bytes"]}
 GROUP_ORDER = ["Bytes", "Content", "Dir", "Search", "View", "Check"]
 
 
@@ -150,6 +164,11 @@ def main():
     for t in TARGETS:
         name = t["name"]
         t["cfg"].setdefault("type_widths", widths)
+        if t.get("struct"):
+            try:
+                t["cfg"]["struct_fields"] = extract_layouts.struct_fields(read(t["file"]), t["struct"]) or {}
+            except Exception:
+                t["cfg"]["struct_fields"] = {}
         st = "extracted"
         text = None
         try:
